@@ -66,7 +66,8 @@ CODE_VERSION = json.load(open(os.path.join(SPEC, "code_version.json")))
 
 BOUND = int(os.environ.get("VSD_BOUND_S", "90"))   # seconds: >= 100x a normal Stop (override for self-tests only)
 
-KNAME = {1: "getblock", 2: "getcfilter", 3: "getutxo", 4: "rescan", 5: "sendtx", 6: "subscribe", 7: "sync"}
+KNAME = {1: "getblock", 2: "getcfilter", 3: "getutxo", 4: "rescan", 5: "sendtx", 6: "subscribe", 7: "sync", 8: "update"}
+CALLERS = (1, 2, 3, 4, 5, 6, 8)      # kinds with a blocked caller (7 = mid-sync has none)
 CNAME = {0: "pending", 1: "shutdown", 2: "cancelled", 3: "legit", 4: "bad", 5: "hung", 6: "none"}
 PNAME = {0: "empty", 1: "silent", 2: "responsive"}
 VISIBLE = ("Begin", "Stop", "Ret", "StopRet", "Reopen")
@@ -108,8 +109,10 @@ def pairs_literal(pairs):
 
 def config(tier, seed):
     rng = random.Random(seed * 1000003 + 17)
-    kinds = [1, 2, 3, 4, 5, 6, 7]
-    ap = all_pairs(kinds)
+    kinds = [1, 2, 3, 4, 5, 6, 7, 8]
+    # 8 = Rescan.Update blocked on its busy rescan goroutine: the activity owns the model's one
+    # rescan, so it never pairs with 4; its rescan walks, and walk x mid-sync is not explored
+    ap = [p for p in all_pairs(kinds) if p not in ((4, 8), (7, 8))]
     if tier == "quick":
         # all single activities (x pool x moment, also begun after Stop) and a
         # seed-chosen sample of the pairs; the pairs with getutxo rotate first
@@ -128,7 +131,9 @@ def config(tier, seed):
                           dict(Pools="{2}", Kinds="{6,7}", MaxAct=2, LateBegin=False, pairs=[(6, 7)])],
                     live=dict(Pools="{0,1,2}", MaxAct=1, LateBegin=True, pairs=ap),
                     moments=[0, 1], per_key=2, bound=BOUND)
-    nosync = [p for p in ap if 7 not in p]
+    # (of the pairs with the update activity only those in which the partner meets the rescan at the
+    # cfilter mutex / the work manager / MarkAsConfirmed: state space)
+    nosync = [p for p in ap if 7 not in p and (8 not in p or p in ((2, 8), (3, 8), (5, 8)))]
     return dict(runs=[dict(Pools="{0,1,2}", MaxAct=1, LateBegin=True, pairs=[], Dialing=True),
                       dict(Pools="{0,1,2}", MaxAct=2, LateBegin=False, pairs=nosync),
                       dict(Pools="{2}", MaxAct=2, LateBegin=False, pairs=[(1, 7), (2, 7), (5, 7), (6, 7)]),
@@ -144,7 +149,7 @@ def config(tier, seed):
 
 
 def consts_of(run):
-    c = dict(Pools=run["Pools"], Kinds=run.get("Kinds", "{1,2,3,4,5,6,7}"), MaxAct=run["MaxAct"],
+    c = dict(Pools=run["Pools"], Kinds=run.get("Kinds", "{1,2,3,4,5,6,7,8}"), MaxAct=run["MaxAct"],
              Pairs=pairs_literal(run["pairs"]) if run["pairs"] else "{}",
              LateBegin=run["LateBegin"], Dialing=bool(run.get("Dialing")))
     c.update(CODE_VERSION)
@@ -431,7 +436,7 @@ class Conformance:
     def __init__(self, g):
         self.g = g
         self.can_stopret = g.back_reach(lambda l: l["op"] == "StopRet")
-        self.can_ret = {k: g.back_reach(lambda l, k=k: l["op"] == "Ret" and l["k"] == k) for k in range(1, 7)}
+        self.can_ret = {k: g.back_reach(lambda l, k=k: l["op"] == "Ret" and l["k"] == k) for k in CALLERS}
         self.init_by_pool = {}
         for n in g.inits:
             self.init_by_pool.setdefault((g.pool(n), g.dial(n), g.never(n)), []).append(n)
@@ -450,7 +455,7 @@ class Conformance:
             j = ACTS_OFF
             while st[j] != 99:
                 j += 1
-            for k in range(1, 7):
+            for k in CALLERS:
                 if st[j + k] // 100 == 0 and x not in self.can_ret[k]:
                     return True
             for e in g.out[x]:
